@@ -309,6 +309,38 @@ theorem reinject_saved_parameter (dflt : DType) (ck : String → Option JKVs) (k
   rw [reinject_restores dflt ck kvs _ i _ data hspec hid hck hten hdec, hdt, hnn]
   cases dt <;> cases nn <;> simp [DType.parseFull, DType.name]
 
+/-- **reinject_keeps_declared_placement**: what the specification says about where and how the parameter lives — `dtype`,
+`nn`, `device`, `requires_grad` — survives the re-injection (the checkpoint entry records no device). -/
+theorem reinject_keeps_declared_placement (ck : String → Option JKVs) (kvs saved : JKVs) (i : String) (d : Json)
+    (hspec : isParamSpec kvs = true) (hid : kvs.lookup "id" = some (.str i))
+    (hck : ck i = some saved) (hten : saved.lookup "tensor" = some d) :
+    ∃ out, updateParams ck (.obj kvs) = .obj out ∧
+      out.lookup "device" = kvs.lookup "device" ∧ out.lookup "requires_grad" = kvs.lookup "requires_grad" ∧
+      out.lookup "dtype" = kvs.lookup "dtype" ∧ out.lookup "nn" = kvs.lookup "nn" := by
+  refine ⟨(kvs.keepOnly keptKeys).snoc "tensor" d, ?_, ?_, ?_, ?_, ?_⟩
+  · simp only [updateParams, hspec, hid, hck, hten, ↓reduceIte]
+  all_goals
+    rw [lookup_reinjected]
+    simp only [show keptKeys.contains "device" = true by decide, show keptKeys.contains "requires_grad" = true by decide,
+      show keptKeys.contains "dtype" = true by decide, show keptKeys.contains "nn" = true by decide, ↓reduceIte]
+
+/-- **reinject_descends_into_unsaved_parameter**: a `Parameter` entry that is NOT in the checkpoint is searched like any
+other object, so a parameter it defines inline (`full_like`, `zeros_like`, `ones_like`, `eye_like`) is still reached. -/
+theorem reinject_descends_into_unsaved_parameter (ck : String → Option JKVs) (kvs : JKVs) (i : String)
+    (hspec : isParamSpec kvs = true) (hid : kvs.lookup "id" = some (.str i)) (hck : ck i = none) :
+    updateParams ck (.obj kvs) = .obj (updateParamsKVs ck kvs) := by
+  simp only [updateParams, hspec, hid, hck, ↓reduceIte]
+
+/-- … e.g. `{"id": "q", "type": "Parameter", "zeros_like": {"id": "y", "type": "Parameter", "tensor": [0]}}` with `y` saved -/
+example :
+    let ck : String → Option JKVs := fun i => if i = "y" then some (.cons "tensor" (.arr (.cons (.int 5) .nil)) .nil) else none
+    let y : JKVs := .cons "id" (.str "y") (.cons "type" (.str "Parameter") (.cons "tensor" (.arr (.cons (.int 0) .nil)) .nil))
+    updateParams ck (.obj (.cons "id" (.str "q") (.cons "type" (.str "Parameter") (.cons "zeros_like" (.obj y) .nil)))) =
+      .obj (.cons "id" (.str "q") (.cons "type" (.str "Parameter") (.cons "zeros_like"
+        (.obj (.cons "id" (.str "y") (.cons "type" (.str "Parameter") (.cons "tensor" (.arr (.cons (.int 5) .nil)) .nil)))) .nil))) := by
+  intro ck y
+  simp [ck, y, updateParams, updateParamsKVs, isParamSpec, JKVs.lookup, paramTypeNames, JKVs.keepOnly, JKVs.snoc, keptKeys]
+
 /-! ## torch optimiser state: keyed by parameter index -/
 
 theorem lookup_type_allInt : ∀ d : KVs, d.allInt = true → d.strKeys.lookup "type" = none
